@@ -449,7 +449,7 @@ pub fn specs(tier: Tier) -> Vec<(String, KyteaSpec)> {
     let mut out = vec![];
     let maps: Vec<Vec<char>> = vec![vec!['a', 'b', 'あ', 'D', 'R', 'H', 'T', 'K', 'O', '\u{4}'], vec!['𠀋', 'R', 'a', 'H', 'あ', 'b', 'O', 'K', 'T', 'D', 'é', '\u{4}']];
     let cpool = ["a", "ab", "b", "aba", "あ", "aあ", "ba", "abab"];
-    let tpool = ["R", "RH", "H", "RR", "HRR", "O", "R\u{4}", "K"];
+    let tpool = ["R", "RH", "H", "RR", "HRR", "O", "R\u{4}", "K", "T", "TR", "\u{4}"];
     let wpool = ["a", "ab", "abab", "あ", "ba", "aあb"];
     let windows: Vec<(u8, u8)> = tier.pick(vec![(1, 1), (2, 3), (3, 2)], vec![(1, 1), (1, 2), (2, 1), (2, 2), (2, 3), (3, 2), (3, 3), (1, 3), (3, 1)]);
     let mut windows = windows;
